@@ -5,6 +5,7 @@ registered statistics functions.
 import DeapModel.Lemmas.C18Hist
 import DeapModel.Lemmas.C18Deep
 import DeapModel.Lemmas.C18Shape
+import DeapModel.Lemmas.C18Counts
 import Mathlib.Data.List.Induction
 
 set_option linter.unusedSimpArgs false
@@ -92,6 +93,37 @@ def ValidDeep (sh : Shape) : List Entry → List Op → Prop
   | _, [] => True
   | es, o :: os => OpOkDeep sh es o ∧ ValidDeep sh (specStep es o) os
 
+/-- streaming a chapter (at any depth) keeps the alignment w.r.t. the tree -/
+theorem modifyAt_shaped (path : List Name) : ∀ (sh : Shape) (lb : LB), ShapedAligned sh lb →
+    ShapedAligned sh (modifyAt (fun l => (stream l).2) path lb) := by
+  induction path with
+  | nil =>
+    intro sh lb h
+    obtain ⟨h1, h2, h3, _⟩ := stream_state lb
+    exact h.congr (congrArg List.length h1) h2 (by
+      show (Logbook.stream lb).2.buffindex ≤ (Logbook.stream lb).2.rows.length
+      rw [h3, h1]; exact Nat.le_refl _)
+  | cons n rest ih =>
+    intro sh lb h
+    obtain ⟨h1, h2, _, _, h5⟩ := modifyAt_cons_state n rest lb
+    rw [shapedAligned_iff] at h ⊢
+    rw [h1, h2, h5, keys_mapChapter]
+    refine ⟨h.1, h.2.1, h.2.2.1, ?_⟩
+    rw [kidsAligned_iff] at *
+    intro q hq
+    have := h.2.2.2 q hq
+    rw [getChapter_mapChapter]
+    by_cases hqn : q.1 = n
+    · simp only [hqn, if_true]
+      rw [hqn] at this
+      cases hg : getChapter n lb.chapters with
+      | none => simpa [hg] using this
+      | some ch =>
+        simp only [hg] at this
+        simp only [Option.map_some]
+        exact ⟨by rw [(modifyAt_stream_top rest ch).1]; exact this.1, ih q.2 ch this.2⟩
+    · simpa [hqn] using this
+
 structure RepDeep (sh : Shape) (lb : LB) (es : List Entry) : Prop where
   shaped : ShapedAligned sh lb
   rows : lb.rows = es.map Entry.scalars
@@ -106,6 +138,11 @@ theorem step_repDeep {sh : Shape} {lb : LB} {es : List Entry} (h : RepDeep sh lb
       simp [step, specStep, Logbook.record, recordAux_rows, h.rows]⟩
   | select path names => exact h
   | str => exact h
+  | streamAt c rest =>
+    have hstep : (step lb (Op.streamAt c rest)).1 = modifyAt (fun l => (stream l).2) (c :: rest) lb := rfl
+    simp only [specStep]; rw [hstep]
+    exact ⟨modifyAt_shaped (c :: rest) sh lb h.shaped, by
+      rw [(modifyAt_cons_state c rest lb).1]; exact h.rows⟩
   | stream =>
     obtain ⟨h1, h2, h3, _⟩ := stream_state lb
     exact ⟨h.shaped.congr (congrArg List.length h1) h2 (by
@@ -193,6 +230,9 @@ theorem step_headerStreamed (lb : LB) (o : Op) (h : lb.headerStreamed = true) :
   | select path names => exact h
   | stream => simp only [step]; rw [(stream_header lb).2, h]; rfl
   | str => exact h
+  | streamAt c rest =>
+    have hstep : (step lb (Op.streamAt c rest)).1 = modifyAt (fun l => (stream l).2) (c :: rest) lb := rfl
+    rw [hstep, (modifyAt_cons_state c rest lb).2.2.2.1]; exact h
   | pop i => simp only [step]; rw [pop_headerStreamed]; exact h
   | delIndex i => simp only [step]; rw [delIndex_headerStreamed]; exact h
   | delSlice idx => simp only [step, delSlice]; rw [delEach_headerStreamed]; exact h
